@@ -423,9 +423,19 @@ class GmxWorld:
         rows = []
         supply = total_usdg * rng.uniform(0.9, 1.3)
         rate = reward_rate if reward_rate is not None else rng.uniform(1e11, 1e15)
+        # governance changes token weights now and then (the total changes with them): half of the worlds
+        weight_steps = rng.random() < 0.5
+        self.weight_changes = 0
         for i in range(n):
             row = {}
             usdg_sum = 0
+            if weight_steps and i > 0 and rng.random() < 0.2:
+                nm = rng.choice(self.tokens).name
+                neww = rng.choice([0, 1000, 3000, 5000, 10000, 20000, 46000])
+                if neww != weights[nm] and (neww > 0 or sum(1 for w in weights.values() if w > 0) > 1):
+                    weights[nm] = neww
+                    tw = sum(weights.values())
+                    self.weight_changes += 1
             for t in self.tokens:
                 price[t.name] *= math.exp(rng.gauss(0, 0.002 if t.name not in ("USDC", "MIM") else 0.0))
                 row[f"{t.name.lower()}_price"] = Decimal(int(price[t.name] * 1e12)) * 10**18
